@@ -81,6 +81,31 @@ theorem normalizeT_table_sensitive (f : CaseFns) (hf : f.Ok) (c : TableCtx) (i :
     · simp [normalizeT, h]
     · simp [normalizeT, h, hf.lower_idem]
 
+/-! ## lexical visibility of CTE names -/
+
+/-- **cte_sibling_independence.**  With `Scope.branch` building a new `cte_sources` mapping (what the source does;
+    re-read each run), take any scope store, any parent scope `p`, branch an inner scope from it (with any extra CTEs),
+    let that inner scope process a nested WITH (`_traverse_ctes`: in-place update with any definitions), then branch a
+    LATER sibling from `p`: every name resolves in the later sibling exactly as the parent's mapping resolved it before —
+    the names defined inside one branch are invisible in another, and cannot shadow an outer CTE or a schema table there. -/
+theorem cte_sibling_independence (st : CState) (p : Nat) (extra defs : CteEnv) (n : String) (ps : CScope)
+    (hp : st.scopes[p]? = some ps) (href : ps.ref < st.envs.length) :
+    cresolve (cbranch true (cupdate (cbranch true st p extra) st.scopes.length defs) p []) (st.scopes.length + 1) n
+      = (st.env ps.ref).lookup n :=
+  sibling_independent st p extra defs n ps hp href
+
+/-- the source does copy (Scope.branch passes `{**self.cte_sources, **…}`), and `_traverse_ctes` updates in place -/
+theorem generated_cte_scoping_ok :
+    Generated.C10.branchCopiesCteSources = true ∧ Generated.C10.traverseCtesUpdatesInPlace = true := by decide
+
+/-- the shared-mapping variant leaks: `WITH o AS (…) SELECT … FROM (WITH c AS (…) SELECT … FROM c) AS s1, (SELECT … FROM c) AS s2`
+    — the root defines o (0); s1 is branched, defines its private c (1); s2 is branched afterwards and looks up c: with a
+    shared mapping it finds s1's c, with a copied one it finds nothing (the schema table c); o is visible either way -/
+theorem cte_shared_dict_leak_witness :
+    let ops := [COp.update 0 [("o", 0)], .branch 0 [], .update 1 [("c", 1)], .branch 0 [], .resolve 2 "c", .resolve 2 "o"]
+    crun false CState.root ops = [some 1, some 0] ∧ crun true CState.root ops = [none, some 0] := by
+  decide +kernel
+
 /-! ## the scope model -/
 
 /-- **qualify_complete** (one scope).  If qualification of a scope succeeds then every source has an alias, the
